@@ -302,6 +302,77 @@ def shard_fixed(prop: str, tier: str, seed: int) -> dict[str, Any]:
     return c.export()
 
 
+def shard_pollers(prop: str, tier: str, seed: int, nmsg: int, nworkers: int, with_sweep: bool, P: int) -> dict[str, Any]:
+    """2-3 workers polling one table at the same time (plus the DLQ sweep / a lock heartbeat), all schedules with <= P pre-emptions."""
+    from stabilize.queue.messages import StartWorkflow
+
+    from vlib.engine_i import Sched, explore
+    from vlib.world import LONG_AGO
+
+    c = Campaign(prop, tier, seed, LEVEL)
+    holder: dict[str, Any] = {}
+
+    def mk() -> World:
+        w = World(share_connection=True)
+        for i in range(nmsg):
+            w.queue.push(StartWorkflow(execution_id=f"M{i}"))
+        if with_sweep:
+            w.queue.push(StartWorkflow(execution_id="OLD"))
+            w._harness_sql("UPDATE queue_messages SET attempts = 10 WHERE payload LIKE '%\"OLD\"%'")
+        w._harness_sql("UPDATE queue_messages SET deliver_at = ?", (LONG_AGO,))
+        holder["got"] = {}
+        return w
+
+    def poller(i: int):
+        def prog(s: Sched, idx: int) -> None:
+            m = s.w.queue.poll_one()
+            if m is None:  # lost a claim race: a real worker polls again on its next cycle
+                m = s.w.queue.poll_one()
+            holder["got"][i] = marker_of(m) if m is not None else None
+            if m is not None and i == 0:
+                s.w.queue.extend_lock(m)
+        return prog
+
+    def sweeper(s: Sched, idx: int) -> None:
+        s.w.queue.check_and_move_expired()
+
+    def progs(w: World):
+        ps = [poller(i) for i in range(nworkers)]
+        if with_sweep:
+            ps.append(sweeper)
+        return ps
+
+    def judge(w: World, s: Sched, pre: dict[int, int]) -> None:
+        got = holder["got"]
+        case = {"kind": "pollers", "messages": nmsg, "workers": nworkers, "sweep": with_sweep, "preemptions": {str(k): v for k, v in sorted(pre.items())}}
+        vals = [v for v in got.values() if v is not None]
+        if len(vals) != len(set(vals)):
+            c.violation("two-holders|concurrent-pollers", case, f"the same message was handed to two workers: {got}")
+        if "OLD" in vals:
+            c.violation("polled-past-limit|concurrent-pollers", case, f"a message at its attempt limit was delivered: {got}")
+        if len(vals) < min(nmsg, nworkers):
+            c.violation("deliverable-not-delivered|concurrent-pollers", case, f"{nmsg} deliverable messages, {nworkers} workers polling twice each, but only {vals} were delivered")
+        for i in range(nmsg):
+            nq = w.scalar("SELECT COUNT(*) FROM queue_messages WHERE payload LIKE ?", (f'%"M{i}"%',))
+            nd = w.scalar("SELECT COUNT(*) FROM queue_messages_dlq WHERE payload LIKE ?", (f'%"M{i}"%',))
+            if nq + nd != 1:
+                c.violation("conservation|concurrent-pollers", case, f"M{i} is in the queue {nq}x and the DLQ {nd}x")
+        if with_sweep:
+            nq = w.scalar("SELECT COUNT(*) FROM queue_messages WHERE payload LIKE '%\"OLD\"%'")
+            nd = w.scalar("SELECT COUNT(*) FROM queue_messages_dlq WHERE payload LIKE '%\"OLD\"%'")
+            if (nq, nd) != (0, 1):
+                c.violation("sweep-lost-or-kept|concurrent-pollers", case, f"exhausted message: queue {nq}x, DLQ {nd}x after the sweep")
+        if s.errors:
+            c.violation("poller-raised|concurrent-pollers", case, f"{s.errors[:2]}")
+        c.case(("c08b", nmsg, nworkers, with_sweep, sorted(pre.items())), bool(pre) and s.switches > 0,
+               ["concurrent-pollers", "contended_polls", f"pollers:{nworkers}", "with-sweep" if with_sweep else "no-sweep"],
+               sample={"messages": nmsg, "workers": nworkers, "preemptions": case["preemptions"], "delivered": {str(k): v for k, v in got.items()}} if pre and len(c.samples) < 2 else None)
+
+    n = explore(mk, progs, judge, max_preemptions=P)
+    c.extra[f"schedules:pollers:{nmsg}m{nworkers}w{'s' if with_sweep else ''}"] = n
+    return c.export()
+
+
 def _dispatch(fn, a):  # noqa: ANN001
     return fn(*a)
 
@@ -313,14 +384,17 @@ def run(c: Campaign, jobs: int) -> None:
     shards = max(1, jobs)
     args = [(shard, (c.prop, c.tier, c.seed * 1000 + k, max(1, n // shards), steps)) for k in range(shards)]
     args.append((shard_fixed, (c.prop, c.tier, c.seed)))
+    for nmsg, nw, sw, P in ((1, 2, False, 3), (2, 2, False, 3), (1, 3, False, 2), (2, 2, True, 2), (2, 3, True, 1)):
+        args.append((shard_pollers, (c.prop, c.tier, c.seed, nmsg, nw, sw, P if quick else P + 1)))
     run_shards(c, _dispatch, args, jobs)
+    c.exhaustive_parts.append("concurrent pollers: 5 configurations (1-2 messages x 2-3 workers, with/without the DLQ sweep and a lock heartbeat), all schedules within the pre-emption bound")
     c.rule = ("case = one history of <= 40 (thorough 80) queue operations by two workers, judged against the reference queue model after every operation "
               "and, for conservation, after every commit inside every operation. Non-trivial = the history contains a lock lapse followed by a re-poll, "
               "a move to the DLQ, or a poll while the other worker holds a message. Distinct = hash of the operation list.")
     c.assumptions += [
         "time is owned by the harness: delays and lock expiry happen only when the harness rewrites deliver_at / locked_until; TZ=UTC",
         "default limits (queue and message max_attempts 10); ties on deliver_at are not ordered by the model",
-        "two SqliteQueue instances share one in-memory connection (sequential history; concurrent pollers belong to the interleaving engine)",
+        "sequential histories use two SqliteQueue instances on one connection; concurrent pollers (2-3 workers, optional DLQ sweep / heartbeat) run under the interleaving engine with a bounded number of pre-emptions",
         "a stale holder's ack deletes the row another worker now holds: at-least-once, recorded as acknowledged (not loss)",
     ]
     for cls in ("lapse_repoll", "dlq_moves", "contended_polls", "replays", "fixed-history"):
